@@ -1,4 +1,5 @@
 import Verif.Proofs.JsStringSim
+import Verif.Proofs.JsStringEnds
 /-!
 # C01E proofs, part 6: the simulation theorem and its consequences for whole literals
 -/
@@ -180,7 +181,8 @@ theorem chooseQuote_isQ (a : Bool) (b : List Nat) : IsQ (chooseQuote a b) := by
   all_goals omega
 
 theorem minifyString_wrap {a : Bool} {qi : Nat} {b : List Nat} (hb : b ≠ []) :
-    minifyString a (qi :: (b ++ [qi])) = chooseQuote a b :: (rep (chooseQuote a b) b ++ [chooseQuote a b]) := by
+    minifyString a (qi :: (b ++ [qi])) =
+      chooseQuote a b :: (escEnds (rep (chooseQuote a b) b) ++ [chooseQuote a b]) := by
   unfold minifyString
   have hl : ¬ (qi :: (b ++ [qi])).length < 3 := by
     cases b with
@@ -193,7 +195,7 @@ theorem minifyString_empty {a : Bool} {qi : Nat} : minifyString a [qi, qi] = [34
   simp [minifyString]
 
 
-theorem templateLit_wrap {b : List Nat} : templateLit (96 :: (b ++ [96])) = 96 :: (rep 96 b ++ [96]) := by
+theorem templateLit_wrap {b : List Nat} : templateLit (96 :: (b ++ [96])) = 96 :: (escEnds (rep 96 b) ++ [96]) := by
   unfold templateLit
   have hl : ¬ (96 :: (b ++ [96])).length < 2 := by simp
   rw [if_neg hl]
@@ -239,6 +241,8 @@ theorem minifyString_value {m a : Bool} {s v : List Nat} (hq : s.head? = some 39
     cases m <;> rfl
   · rw [minifyString_wrap hbn, decodeLit_wrap (chooseQuote_isQ a b), rep_eq_repA]
     have cx : Ctx m qi (chooseQuote a b) := ⟨hqi, chooseQuote_isQ a b, fun h => absurd h hne⟩
+    -- the pass `escapeHTMLEnds` over the rewritten body does not change the value
+    apply escEnds_value (chooseQuote_isQ a b) _ _ v (Nat.le_refl _)
     by_cases h96 : chooseQuote a b = 96
     · have hgt : Guard true b = true := guard_true_of hgb (chooseQuote_tmpl h96)
       exact sim_all (cf := true) cx (fun _ => rfl) b.length b (Nat.le_refl _) v hgt hb
@@ -254,6 +258,7 @@ theorem templateLit_value {m : Bool} {s v : List Nat} (hq : s.head? = some 96)
   have hgb : Guard false b = true := by simpa [NoNul] using hg
   rw [templateLit_wrap, decodeLit_wrap hqi, rep_eq_repA]
   have cx : Ctx m 96 96 := ⟨hqi, hqi, fun h => h⟩
+  apply escEnds_value hqi _ _ v (Nat.le_refl _)
   exact sim_all (cf := false) cx (fun h => absurd rfl h.2.1) b.length b (Nat.le_refl _) v hgb hb
 
 end Verif.Proofs.JsString
